@@ -113,3 +113,31 @@ package runtime
 //@ ensures[C03] ncalls(RunStmt) == 1 && callres(RunStmt, 0, 2) != nil ==> result2 != nil && ncalls((*Task).SetVarb) == 0 && ncalls(changeListOrMapValue) == 0
 //@ ensures[C03] ncalls(changeListOrMapValue) <= 1 && (ncalls(changeListOrMapValue) == 1 ==> expr.LHS[0].NodeType == ast.TypeIndexExpr && callarg(changeListOrMapValue, 0, 2) == expr.LHS[0].elem.(*ast.IndexExpr).Index && ncalls((*Task).GetKey) == 1 && callarg((*Task).GetKey, 0, 1) == expr.LHS[0].elem.(*ast.IndexExpr).Obj.Name)
 //@ ensures[C03] ncalls(changeListOrMapValue) == 1 && expr.Op == ast.EQ ==> callarg(changeListOrMapValue, 0, 3) == callres(RunStmt, 0, 0) && callarg(changeListOrMapValue, 0, 4) == callres(RunStmt, 0, 1)
+
+// ---- C14 / C13: nothing starts after the exit flag was seen ------------------------------------------
+// A statement, a loop header clause, a loop post statement or a block is only ever started while the
+// script has not exited (by `exit()` or by the host's signal): whatever was polled between two of them
+// and answered "exit" ends the construct before the next one starts.
+//@ func RunStmt
+//@ observe exited bool = ctx.procExit
+//@ func RunStmts
+//@ observe exited bool = ctx.procExit
+//@ func RunForStmt
+//@ ensures[C13,C14] forall k mathint :: 0 <= k && k < ncalls(RunStmt) ==> !callobs(RunStmt, k, exited)
+//@ ensures[C13,C14] forall k mathint :: 0 <= k && k < ncalls(RunStmts) ==> !callobs(RunStmts, k, exited)
+//@ loop 1
+//@ invariant[C13,C14] forall k mathint :: 0 <= k && k < ncalls(RunStmt) ==> !callobs(RunStmt, k, exited)
+//@ invariant[C13,C14] forall k mathint :: 0 <= k && k < ncalls(RunStmts) ==> !callobs(RunStmts, k, exited)
+//@ func RunForInStmt
+//@ ensures[C13,C14] forall k mathint :: 0 <= k && k < ncalls(RunStmt) ==> !callobs(RunStmt, k, exited)
+//@ ensures[C13,C14] forall k mathint :: 0 <= k && k < ncalls(RunStmts) ==> !callobs(RunStmts, k, exited)
+//@ loop 1
+//@ invariant[C13,C14] forall k mathint :: 0 <= k && k < ncalls(RunStmts) ==> !callobs(RunStmts, k, exited)
+//@ loop 2
+//@ invariant[C13,C14] forall k mathint :: 0 <= k && k < ncalls(RunStmts) ==> !callobs(RunStmts, k, exited)
+//@ loop 3
+//@ invariant[C13,C14] forall k mathint :: 0 <= k && k < ncalls(RunStmts) ==> !callobs(RunStmts, k, exited)
+//@ func RunStmts
+//@ ensures[C13,C14] forall k mathint :: 0 <= k && k < ncalls(RunStmt) ==> !callobs(RunStmt, k, exited)
+//@ loop 1
+//@ invariant[C13,C14] forall k mathint :: 0 <= k && k < ncalls(RunStmt) ==> !callobs(RunStmt, k, exited)
